@@ -121,7 +121,33 @@ func mutate(r *rng, s string, ver int) string {
 		return s
 	}
 	i := r.intn(len(parts))
-	switch r.intn(17) {
+	switch r.intn(18) {
+	case 17: // a value that is legal for another metric of the version (its
+		// modified/base twin half of the time), not for this one
+		if k := strings.IndexByte(parts[i], ':'); k > 0 {
+			sp := specs[ver]
+			if m := sp.metric(parts[i][:k]); m != nil {
+				var cand []string
+				twin := sp.metric("M" + m.Abv)
+				if twin == nil && strings.HasPrefix(m.Abv, "M") {
+					twin = sp.metric(m.Abv[1:])
+				}
+				src := sp.Metrics
+				if twin != nil && r.chance(0.5) {
+					src = []metricSpec{*twin}
+				}
+				for _, o := range src {
+					for _, v := range o.Values {
+						if !m.has(v) {
+							cand = append(cand, v)
+						}
+					}
+				}
+				if len(cand) > 0 {
+					parts[i] = parts[i][:k+1] + r.pick(cand)
+				}
+			}
+		}
 	case 16: // the same metric twice, with two different values
 		if k := strings.IndexByte(parts[i], ':'); k > 0 {
 			if m := specs[ver].metric(parts[i][:k]); m != nil {
@@ -917,6 +943,35 @@ func genSweep(r *rng, p *Plan) (nTasks, nParse int) {
 	n := []int{100, 200, 400}[r.intn(3)]
 	anc := anchors(ver)
 	parseSweep := r.chance(0.4)
+	// near-miss sweep: ONE vector (often of a special shape: base metrics only,
+	// or every metric present) parsed over and over with one value replaced by
+	// a value that is legal for some other metric of the version - fast paths
+	// for common shapes validate with tables of their own
+	missSweep := parseSweep && r.chance(0.5)
+	var missBase []string
+	var allVals []string
+	if missSweep {
+		var bp []string
+		shape := r.intn(3) // 0 base only, 1 everything, 2 random
+		for _, m := range sp.Metrics {
+			if m.Group == 0 || shape == 1 || (shape == 2 && r.chance(0.5)) {
+				bp = append(bp, m.Abv+":"+r.pick(m.Values))
+			}
+		}
+		if ver == 20 && shape == 2 {
+			bp = strings.Split(genValidPlain(r, 20), "/")
+		}
+		missBase = bp
+		seenV := map[string]bool{}
+		for _, m := range sp.Metrics {
+			for _, v := range m.Values {
+				if !seenV[v] {
+					seenV[v] = true
+					allVals = append(allVals, v)
+				}
+			}
+		}
+	}
 	for t := 0; t < nTasks; t++ {
 		p.Cells = append(p.Cells, CellSpec{Ver: ver, Mode: mPriv, Owner: t, Init: genValid(r, ver)}, CellSpec{Ver: ver, Mode: mPriv, Owner: t, Init: r.pick(anc)})
 	}
@@ -932,6 +987,33 @@ func genSweep(r *rng, p *Plan) (nTasks, nParse int) {
 		}
 		var seen []string
 		for len(ops) < n {
+			if missSweep {
+				nParse++
+				parts := append([]string{}, missBase...)
+				i := r.intn(len(parts))
+				k := strings.IndexByte(parts[i], ':')
+				switch r.intn(10) {
+				case 0:
+					parts[i] = parts[i][:k+1] + nearMiss(r, parts[i][k+1:])
+				case 1: // still legal: another value of the same metric
+					parts[i] = parts[i][:k+1] + r.pick(sp.metric(parts[i][:k]).Values)
+				default:
+					parts[i] = parts[i][:k+1] + r.pick(allVals)
+				}
+				s := strings.Join(parts, "/")
+				if ver != 20 {
+					s = sp.Header + "/" + s
+				}
+				op := Op{K: kParse, V: ver, C: -1, D: -1, S: s}
+				if r.chance(0.3) {
+					op.D = walk
+				}
+				ops = append(ops, op)
+				if op.D >= 0 && r.chance(0.5) {
+					ops = append(ops, obs(walk))
+				}
+				continue
+			}
 			if parseSweep {
 				nParse++
 				s := genValid(r, ver)
@@ -1039,8 +1121,37 @@ func genExtraOp(r *rng, p *Plan, usable func(ver int, mut bool) []int) (Op, bool
 		op.C = c[r.intn(len(c))]
 	}
 	var args []string
+	var objCells []int
 	for _, k := range fn.Params {
 		switch k {
+		case "obj", "objptr":
+			// an object of the caller's: now and then the receiver itself or the
+			// same object twice (aliasing must not matter)
+			c := usable(fn.Ver, k == "objptr")
+			if len(c) == 0 {
+				return op, false
+			}
+			pick := c[r.intn(len(c))]
+			if op.C >= 0 && r.chance(0.35) {
+				pick = op.C
+			} else if len(objCells) > 0 && r.chance(0.3) {
+				pick = objCells[r.intn(len(objCells))]
+			}
+			objCells = append(objCells, pick)
+			args = append(args, "")
+		case "strs":
+			// a batch: mostly valid vectors, a few invalid ones at random places
+			n := []int{0, 1, 2, 3, 8, 40, 300, 1100, 2100}[r.intn(9)]
+			pBad := []float64{0, 0.002, 0.02, 0.2}[r.intn(4)]
+			var el []string
+			for i := 0; i < n; i++ {
+				if r.chance(pBad) {
+					el = append(el, mutate(r, genValid(r, fn.Ver), fn.Ver))
+				} else {
+					el = append(el, genValid(r, fn.Ver))
+				}
+			}
+			args = append(args, strings.Join(el, "\x1e"))
 		case "string", "bytes":
 			switch r.intn(4) {
 			case 0:
@@ -1076,6 +1187,7 @@ func genExtraOp(r *rng, p *Plan, usable func(ver int, mut bool) []int) (Op, bool
 		}
 	}
 	op.S2 = strings.Join(args, "\x1f")
+	op.A = joinInts(objCells)
 	if r.chance(0.5) {
 		op.D = 1
 	}
